@@ -280,7 +280,13 @@ class Evaluator:
         if sig and not any(isinstance(a, ast.Starred) for a in e.args):
             for name, a in zip(sig, e.args):
                 out[name] = self.ev(a, env, f)
-        out.update({k.arg: self.ev(k.value, env, f) for k in e.keywords if k.arg})
+        for k in e.keywords:
+            if k.arg:
+                out[k.arg] = self.ev(k.value, env, f)
+            else:   # `**mapping`: a mapping the evaluator knows (a `**kwargs` parameter bound by call_method, a dict built in __init__)
+                v = self.ev(k.value, env, f)
+                if isinstance(v, dict):
+                    out.update(v)
         return out
 
     def call(self, e, env, f):
@@ -338,9 +344,14 @@ class Evaluator:
         args = {}
         for p_, a in zip(params, e.args):
             args[p_] = self.ev(a, env, f)
+        rest = {}
         for k in e.keywords:
             if k.arg:
-                args[k.arg] = self.ev(k.value, env, f)
+                (args if k.arg in params else rest)[k.arg] = self.ev(k.value, env, f)
+        if m.node.args.kwarg is not None:
+            args[m.node.args.kwarg.arg] = rest
+        else:
+            args.update(rest)
         for k, d in m.defaults_map().items():
             if k not in args:
                 args[k] = self.ev(d, {}, m)
@@ -483,6 +494,17 @@ class CostEvaluator(Evaluator):
                 return base[2]
             return Unknown("__name__")
         return super().ev(e, env, f)
+
+    def self_call(self, name, e, env, f):
+        r = super().self_call(name, e, env, f)
+        if is_unknown(r) and name.startswith("_") and not name.startswith("__") and self.ctx.find_method(name) is not None and self.depth < 4:
+            # a private helper of the cost class (`self._new_pointwise_instance(..)`): interpreted like the property that calls it
+            self.depth += 1
+            try:
+                return self.call_method(name, e, env, f)
+            finally:
+                self.depth -= 1
+        return r
 
     def hook(self, src, e, env, f):
         if src == "list" and e.args:
